@@ -9,7 +9,7 @@ DASH_RX = re.compile(r"^dashmap::DashMap::<K, V, S>::(\w+)$|^dashmap::DashSet::<
 DASH_GUARDED = {"entry", "get", "get_mut", "iter", "iter_mut", "try_entry", "try_get", "try_get_mut"}
 DASH_TRANSIENT = {"insert", "remove", "remove_if", "contains_key", "len", "is_empty", "retain", "alter", "clear", "view", "remove_if_mut", "alter_all"}
 UNWRAP_RX = re.compile(r"Result::<T, E>::(unwrap|expect|unwrap_or_else)$|PoisonError::<T>::into_inner$")
-DEREF_THROUGH = lambda c: 0 if c.matches(r"ops::Deref>::deref$|ops::Deref::deref$|ops::DerefMut>::deref_mut$|once_cell::sync::OnceCell::<T>::get_or_init$|Option::<T>::as_ref$|AsRef") else None
+DEREF_THROUGH = lambda c: 0 if c.matches(r"ops::Deref>::deref$|ops::Deref::deref$|ops::DerefMut>::deref_mut$|once_cell::sync::OnceCell::<T>::get_or_init$|once_cell::sync::OnceCell::<T>::get$|Arc<T, A> as std::ops::Deref>::deref$|Option::<T>::as_ref$|AsRef") else None
 
 
 def lock_identity(fn, op):
